@@ -14,17 +14,18 @@ for p in sorted(glob.glob(os.path.join(V, "seeded", "*", "meta.json"))):
         if len(first) < 60 and len(paras) > 1:
             first = (first + " " + re.sub(r"[=|]+", " ", paras[1]))[:230]
     rows.append((d["name"], d["breaks_property"], first, "; ".join("%s `%s`" % (k, v[0]) for k, v in sorted(d["caught_by"].items())), ", ".join(d["missed_by"]) or "–", d.get("note", "")))
-n1 = sum(1 for r in rows if not r[0].startswith("r2-")); n2 = len(rows) - n1
+n1 = sum(1 for r in rows if not r[0].startswith("r")); n2 = sum(1 for r in rows if r[0].startswith("r2-")); n3 = sum(1 for r in rows if r[0].startswith("r3-"))
 t = "### 13.5 Seeded changes and which check catches which\n\n"
-t += ("%d changes written by independent sub-agents in two rounds (%d + %d).  Each agent was given only one property's text and its own scratch worktree (round 2 additionally one-line summaries of the round-1 ideas, to force different mechanisms and locations, and was asked for hard-to-find defects).  "
+t += ("%d changes written by independent sub-agents in three rounds (%d + %d + %d).  Each agent was given only one property's text and its own scratch worktree (rounds 2 and 3 additionally one-line summaries of the earlier ideas for that property, to force different mechanisms and locations, and were asked for hard-to-find defects: rare trigger values, long histories, very large inputs, state surviving re-initialisation, rarely used variants).  "
       "Every change was confirmed independently with `mk/verify_seeded.sh` (unchanged tree: demonstration passes; changed tree: builds, suite 30/30, demonstration fails) and then run against the quick tier of the target property and one neighbour with `mk/try_patch.sh` / `mk/seeded_batch.py`.  "
-      "Stored under `seeded/<name>/` (patch.diff, demonstration, README.txt, meta.json).  \"silent\" lists neighbouring checks that were run and rightly or wrongly said nothing.\n\n" % (len(rows), n1, n2))
+      "Stored under `seeded/<name>/` (patch.diff, demonstration, README.txt, meta.json).  \"silent\" lists neighbouring checks that were run and rightly or wrongly said nothing.\n\n" % (len(rows), n1, n2, n3))
 t += "| change | target | what it is (from the author's README) | caught by (first signature) | silent | note |\n|---|---|---|---|---|---|\n"
 for r in rows:
     t += "| %s | %s | %s | %s | %s | %s |\n" % r
 t += ("\n**Result.**  Every seeded change is caught by the check of the property it targets, except where the mechanism belongs to another property, in which case that property's check catches it: "
       "C07-2, r2-C04-2 (need a non-shipped build configuration: C12), C13-1, r2-C07-2 (cached probe / static scratch buffer, bit-exact single-threaded: C18), r2-C13-2, r2-C15-2 (need an allocation failure: C16; C13 and C15 were afterwards given allocation-failure injection as well and now catch them themselves).  "
-      "Misses that led to strengthening: C10-2 (tool option order), C19-1 (related tweaks), r2-C13-2 / r2-C15-2 (fault injection added to C13/C15 generators); anticipated from round-2 summaries and added before the checks were run: prefix-of-previous tweaks, set_tweak on a CTR object keyed without a tweak (C06), near-miss `-b` values (C20), failed-init objects in C14's histories.  "
+      "**The most important miss was r3-C08-1**: a table look-up indexed by secret data in a 32-bit-word path was invisible to ctsim, because the compiler's thread-sanitizer instrumentation does not report reads of constant data at all; ctsim now uses out-of-line address-sanitizer-style call-backs (flavour `cthook`) that see every load and store, and runs a 32-bit-word build in the quick tier.  r3-C18-1 exposed two defects of the machinery (no run-time entry points for C11 atomics: link failure; no step budget: hang), r3-C13-2 made C13 build-configuration aware, r3-C20-1 needed `fopen` mode semantics and pre-existing output files in SimFS.  "
+      "Other misses that led to strengthening: C10-2 (tool option order), C19-1 (related tweaks), r2-C13-2 / r2-C15-2 (fault injection added to C13/C15 generators); anticipated from round-2 summaries and added before the checks were run: prefix-of-previous tweaks, set_tweak on a CTR object keyed without a tweak (C06), near-miss `-b` values (C20), failed-init objects in C14's histories.  "
       "Six round-1 results first looked like misses because the *report* of a found violation crashed on a truncated JSON string (fixed: `strf` is unbounded now and `./check` turns any exception of the machinery into exit 2, never 1).\n\n"
       "Own mutants used while building (all caught, not stored as directories): static result cache in `_skinny_has_vec128` (C18), `if (!inc) break;` in `skinny128_ctr_increment` (C08), wrong mask in the 32-bit `skinny128_permute_tk` (C12), `% 16` instead of `% block_size` in skinny-ecb (C20), partial `memset` for the NULL tweak in `Skinny64_Tweaked::setTweak` (C19), a 24-byte `memset` into a 16-byte stack block (caught as `sanitizer-report` by the ASan flavour only), and the eight original defects D1-D8 themselves (reverting any `fix:` commit re-creates a seeded change with a known signature, 13.3).\n")
 s = open(os.path.join(V, "DESIGN.md")).read()
